@@ -11,6 +11,10 @@ Check(e) ==
          /\ Report(~StConformant(e.kind, e.abs) \/ e.back_same, <<"BAD", "conformant-encoding-not-recovered", l>>)
          \* a PDU parsed as a confirm / response is never returned as a request object (and vice versa)
          /\ Report(WireType(e.kind, e.wire) = "-" \/ e.parsed_type = WireType(e.kind, e.wire), <<"BAD", "parsed-object-type-differs-from-wire", l>>)
+    [] e.ev = "alt" ->     \* a second conformant encoding (BER long-form length) built by the harness
+         /\ Report(e.wire = LdapAlt(e.kind, e.abs, e.where, e.k), <<"BAD", "harness-alternative-encoding-is-not-the-specified-one", l>>)
+         /\ Report(e.out = "ok" /\ e.n = Len(e.wire), <<"BAD", "conformant-encoding-rejected", l>>)
+         /\ Report(e.out # "ok" \/ e.back_same, <<"BAD", "conformant-encoding-not-recovered", l>>)
     [] e.ev = "cross" ->   \* bytes of one message type given to the parser class of the other type
          Report(e.out # "ok" \/ e.parsed_type = e.wire_type, <<"BAD", "parsed-object-type-differs-from-wire", l>>)
 Init == l = 1
